@@ -22,6 +22,8 @@ from sa import core, aggtables as AT
 from sa.pyfront import Program
 
 RULES = {
+    "R-C04-f": "the counters the array cube fills (valid / missing counts, per fill branch incl. several fact columns) are the same reducers as the index cube's: the shared missing-cell predicate then reads the same quantities in both cubes",
+    "R-C04-e": "every near-zero test that decides 'this differenced counter is zero' (adjust_zeros' default, ffunc_count/xfunc_count.reduce) uses isclose(x, 0) with NumPy's default absolute tolerance, as documented - not a narrower one",
     "R-C04-d": "the counters read by the missing test mean the same thing in the grand total as in the cells (corner = all-rows instance of the cell value, per fact column): the missing test of a reconstructed common cell then sees that cell's own rows",
     "R-C04-a": "missing-cell predicate table per class x policy x format equals the documented rule",
     "R-C04-b": "pair-format validity = ~(mask used to write the sentinel); sentinel = return_missing_as[0]; NaN and pair formats use the same mask",
@@ -43,6 +45,8 @@ def main(tier):
                                             cfgs=AT.weight_modes(name))
     n_c = AT.rule_exact_tests(prog, C)
     n_d = AT.rule_corner_cell(prog, C, "R-C04-d")
+    n_f = AT.rule_sibling_fill(prog, C, rule="R-C04-f")
+    n_t = AT.rule_zero_snap_tolerance(prog, C, "R-C04-e")
     for rule, status, where, cons, detail, wit in C.items:
         rep.add(rule, where, cons, status, detail, True, wit)
     rep.floor("R-C04-a", 100, n_a)
